@@ -45,8 +45,8 @@ def gen_variant_case(rng, with_pm=True):
         case.update(xl=enc(lo), xu=enc(hi), X=enc(Xi), kinds=["integral"] * v, xdtype="int64", pm=False)
     if rng.random() < 0.25:
         case["rand_values"] = [float(rng.choice([0.0, gens.ONE_M, 0.5, 2.0 ** -53, rng.random()])).hex() for _ in range(13)]
-    if rng.random() < 0.2:
-        case["prime"] = True
+    if rng.random() < 0.25:
+        case["prime"] = rng.choice([True, "inplace"])
     return case
 
 
@@ -72,6 +72,7 @@ def run_variant(case):
     rv = [float.fromhex(h) for h in case["rand_values"]] if "rand_values" in case else None
     if case.get("prime"):
         # the operator object has been used before, on a problem with the same number of variables and a wider box
+        # ("inplace": the SAME problem object, whose bound arrays are then tightened in place - a zoom-in restart)
         prob0 = make_problem(xl - 1.0 - 0.5 * np.abs(xl), xu + 2.0 + 0.5 * np.abs(xu))
         pop0 = Population.new("X", X.copy())
         for ind, r in zip(pop0, case["ranks"]):
@@ -79,6 +80,9 @@ def run_variant(case):
                 ind.set("rank", r)
         np.random.seed(case["seed"] + 7)
         dv.do(prob0, pop0, len(pop0))
+        if case["prime"] == "inplace":
+            prob = prob0
+            prob.xl[:] = xl; prob.xu[:] = xu
     np.random.seed(case["seed"])
     mark = {}
     with Recorder(rand_values=rv) as rec:
@@ -153,7 +157,7 @@ class C01(Check):
         if case["pm"]: out.append("with-PM")
         if "rand_values" in case: out.append("scripted-draws")
         out += ["range-" + k for k in set(case["kinds"])]
-        if case.get("prime"): out.append("operator-reused")
+        if case.get("prime"): out.append("operator-reused" + ("-bounds-tightened-in-place" if case["prime"] == "inplace" else ""))
         if "xdtype" in case: out.append("population-" + case["xdtype"])
         return out
 
